@@ -216,7 +216,10 @@ LEVEL_TEXT = ("Proof (Coq, all theorems closed under the global context) on the 
               "registry interface Api.api and the invariant IdsProofs.ids_inv (C03_ids_unique; set_id fresh: C03_ids_unique_partial), "
               "refuted for Sphinx' preset math ids; refid values resolve for the reference kinds the renderer creates - footnote "
               "references and '#anchor' links - as corollaries of the C11 / C09 models of the two transforms that write refids "
-              "(C03_refids_resolve_footnotes, C03_refids_resolve_anchors, C03_refids_dangle_only_reported). Tie: Gen/Render.v, the "
+              "(C03_refids_resolve_footnotes, C03_refids_resolve_anchors, C03_refids_dangle_only_reported); a footnote starts with "
+              "its label at the point where render_footnote_reference creates it - manual: label first child, auto: registered in "
+              "document.autofootnotes before the node exists (C03_footnote_label_first_partial). 13 theorems: 8 full on their "
+              "stated premises, 3 partial (transitions, ids set_id-fresh lemma, label first), 2 refuted. Tie: Gen/Render.v, the "
               "source translation Gen/RenderSrc.v of the straight-line render methods with C03_single_occurrence_src, and "
               "differential correspondence directly after parsing and after the modelled transforms (tree, ids, names, refids, backrefs, "
               "warnings) on every run; label-first / refids / ids are evaluated (extracted) on every transformed model document; the "
@@ -225,7 +228,8 @@ LEVEL_TEXT = ("Proof (Coq, all theorems closed under the global context) on the 
 LEVEL_NOTE = ("Trusted: Coq kernel; transcriptions of base.py/sphinx_.py/transforms.py and of docutils' registry + Footnotes transform "
               "(correspondence-checked); the C11 / C09 builders' models Refs/Foot.v, Refs/Anchors.v for the refid corollaries; parent "
               "pointers and the full transform pipelines are checked on the implementation only. Not proved on the tree model: "
-              "footnote-label-first and refid resolution after the transforms (measured on every transformed model document + search); "
+              "footnote-label-first for the whole document and refid resolution after the transforms (measured on every transformed "
+              "model document + search); "
               "ids after the transforms. Open findings (35 signatures): transition:inside-container, ids:duplicate:math-label+math-label, "
               "ids:duplicate:math-label+other, ids:duplicate:toc-copy, four {eval-rst} signatures, HandleCodeBlocks, "
               "refid:dangling:node-removed:DocInfo / :Contents, two docinfo-stripped, and (round 3, all inherited from docutils / "
